@@ -17,7 +17,7 @@ From Coq Require Import Reals List Lra Lia ZArith.
 From Coquelicot Require Import Coquelicot.
 From RL Require Import Base.Outcome Base.Num Base.NumR Base.Str Model.Dual Model.Number Model.Linalg
   Model.Spline Model.PPSpline Proofs.DualP Proofs.Dual2P Proofs.SplinePoly Proofs.SplineP
-  Proofs.PPSplineP Proofs.PPSplineHom Proofs.PPSplineR Proofs.PPSplinePoly Proofs.LinalgI Proofs.PPSplineLin.
+  Proofs.SplineMarsden Proofs.PPSplineP Proofs.PPSplineHom Proofs.PPSplineR Proofs.PPSplinePoly Proofs.LinalgI Proofs.PPSplineLin.
 Import ListNotations.
 Open Scope R_scope.
 
@@ -130,6 +130,23 @@ Theorem C15_abscissa2 : forall (X : dual2 R), wf2 X -> forall (s : @ppspline R R
                    forall u v, coef2 d u v = v1 * coef2 X u v + / 2 * v2 * (coef1 X u * coef1 X v).
 Proof. exact ppdnev_f_dual2_spec. Qed.
 
+(* Dual2 coefficients AND a Dual2 abscissa (PPSpline<Dual2>::ppdnev_single_dual2): value, first
+   order as for Dual, and the stored second-order coefficient with all cross terms:
+   data part + s' X_uv + 1/2 s'' X_u X_v + 1/2 (d/du s' X_v + d/dv s' X_u) *)
+Theorem C15_abscissa2_dual2_spline : forall (X : dual2 R), wf2 X ->
+  forall (s : @ppspline R (dual2 R)) c m d,
+  pc s = Some c -> List.Forall wf2 c ->
+  ppdnev_d2_dual2 s X m = Ok d ->
+  exists d0 d1 d2, ppdnev_single xmul_dual2 s (re2 X) m = Ok d0 /\
+                   ppdnev_single xmul_dual2 s (re2 X) (m + 1) = Ok d1 /\
+                   ppdnev_single xmul_dual2 s (re2 X) (m + 2) = Ok d2 /\
+                   wf2 d /\ re2 d = re2 d0 /\
+                   (forall v, coef1 d v = coef1 d0 v + re2 d1 * coef1 X v) /\
+                   forall u v, coef2 d u v = coef2 d0 u v + re2 d1 * coef2 X u v
+                                 + / 2 * re2 d2 * (coef1 X u * coef1 X v)
+                                 + / 2 * (coef1 d1 u * coef1 X v + coef1 d1 v * coef1 X u).
+Proof. exact ppdnev_d2_dual2_spec. Qed.
+
 (* the 3 x 3 table spline kind x abscissa kind of mapped_value: with coefficients present, seven
    cells never return an error and answer in the stated kind (0 float, 1 Dual, 2 Dual2); the cells
    (Dual spline, Dual2 abscissa) and (Dual2 spline, Dual abscissa) are errors *)
@@ -192,10 +209,7 @@ Proof. exact marsden. Qed.
    (any finite list of (a_q, tau_q)): the solved spline on samples of p - values inside, the
    requested derivatives at the two end sites - equals p and all its derivatives on the whole
    domain, provided only that the collocation matrix is non-singular.
-   MISSING for the property as worded ("every polynomial of degree below the order"): that these
-   p exhaust the polynomials of degree < k (a spanning argument, not formalised).  Polynomial data
-   of every degree < k given by monomial coefficients is additionally TESTED by the correspondence
-   run (labelled as a test: the real code's values against the polynomial itself). *)
+   (Superseded by C15_poly below, which covers every polynomial of degree < k; kept.) *)
 Theorem C15_poly_marsden_partial : forall k n t (c0 : option (list R)) (s' : @ppspline R R) tau y l r
     (q : list (R * R)),
   admissible k n t ->
@@ -208,6 +222,35 @@ Theorem C15_poly_marsden_partial : forall k n t (c0 : option (list R)) (s' : @pp
   forall x m, tn t (k - 1) <= x <= tn t n ->
     ppdnev_single xmul_num s' x m = Ok (Derive_n (shifted_powers k q) m x).
 Proof. exact poly_marsden_R. Qed.
+
+(* Every polynomial of degree < k is a combination of the B-splines with explicit coefficients:
+   compare the coefficients of tau^d on both sides of Marsden's identity (binomial theorem on the
+   left; a real polynomial vanishing everywhere has zero coefficients).
+   peval a x = a_0 + a_1 x + a_2 x^2 + ... (C15_peval_monomials). *)
+Theorem C15_peval_monomials : forall a x, peval a x = sumf (fun j => nth j a 0 * x ^ j) (length a).
+Proof. exact peval_monomials. Qed.
+
+Theorem C15_poly_coeffs : forall k n t a, admissible k n t -> (length a <= k)%nat ->
+  forall j, (k - 1 <= j <= n - 1)%nat -> tn t j < tn t (S j) ->
+  forall x, dotR (map (fun i => P (tn t) j k i x) (seq 0 n)) (poly_cstar k n t a) = peval a x.
+Proof. exact poly_cstar_repro. Qed.
+
+(* C15_poly, FULL: for every polynomial p of degree below the order (any coefficient list a of
+   length <= k), the spline solved on samples of p - values at the interior sites, the requested
+   derivatives at the two end sites - equals p, and every derivative of the spline equals the
+   corresponding derivative of p, at every point of the domain.  Only hypothesis on the data
+   sites: the collocation matrix is non-singular. *)
+Theorem C15_poly : forall k n t (c0 : option (list R)) (s' : @ppspline R R) tau y l r (a : list R),
+  admissible k n t -> (length a <= k)%nat ->
+  csolve xmul_num (mkPP k t c0 n) tau y l r false = Ok s' ->
+  (forall B, bsplmatrix (mkPP k t c0 n) tau l r = Ok B -> nonsingular n B) ->
+  (forall jx x, nth_error tau jx = Some x -> tn t (k - 1) <= x <= tn t n) ->
+  length y = length tau ->
+  (forall jx x, nth_error tau jx = Some x ->
+     nth_error y jx = Some (Derive_n (peval a) (row_m l r (length tau) jx) x)) ->
+  forall x m, tn t (k - 1) <= x <= tn t n ->
+    ppdnev_single xmul_num s' x m = Ok (Derive_n (peval a) m x).
+Proof. exact poly_R. Qed.
 
 (* degree 0 directly: the constants are reproduced by c* = (1, ..., 1) *)
 Theorem C15_poly_const_hyp : forall k n t, admissible k n t ->
@@ -223,6 +266,10 @@ Proof.
   split; [apply wf_dual_new|]. split; [apply own_vars_wf|].
   apply C15_errors. left. cbn. split; [lia|]. intros [A _]. discriminate.
 Qed.
+
+(* peval reads a coefficient list lowest degree first: 1 + 2 x + 3 x^2 at x = 2 *)
+Example C15_peval_example : peval [1; 2; 3] 2 = 17.
+Proof. cbn. ring. Qed.
 
 Print Assumptions C15_errors.
 Print Assumptions C15_interpolates.
@@ -240,3 +287,7 @@ Print Assumptions C15_poly_partial_R.
 Print Assumptions C15_marsden.
 Print Assumptions C15_poly_marsden_partial.
 Print Assumptions C15_poly_const_hyp.
+Print Assumptions C15_peval_monomials.
+Print Assumptions C15_poly_coeffs.
+Print Assumptions C15_poly.
+Print Assumptions C15_abscissa2_dual2_spline.
